@@ -26,7 +26,12 @@ def ranges(lines):
 
 
 d = sys.argv[1]
-report = {}
+JSON = os.path.join(ROOT, 'docs', 'coverage_quick.json')
+# a partial run (a list of properties) MERGES into the existing report: the other properties keep their last measurement
+try:
+    report = json.load(open(JSON))['properties']
+except Exception:  # noqa
+    report = {}
 for prop in sys.argv[2:]:
     files = glob.glob(os.path.join(d, prop, 'cov.*'))
     if not files:
@@ -46,10 +51,11 @@ for prop in sys.argv[2:]:
             continue
         tot_s += len(stmts); tot_m += len(missing)
         per[f] = {'statements': len(stmts), 'reached': len(stmts) - len(missing), 'not_reached': ranges(missing)}
-    report[prop] = {'statements': tot_s, 'reached': tot_s - tot_m, 'percent': round(100.0 * (tot_s - tot_m) / max(1, tot_s), 1), 'files': per}
+    report[prop] = {'measured_at_repo_head': os.popen('git -C /repo rev-parse --short HEAD').read().strip(), 'statements': tot_s, 'reached': tot_s - tot_m, 'percent': round(100.0 * (tot_s - tot_m) / max(1, tot_s), 1), 'files': per}
 head = os.popen('git -C /repo rev-parse --short HEAD').read().strip()
+report = {p: report[p] for p in sorted(report)}
 json.dump({'repo_head': head, 'tier': 'quick', 'what': 'statements of the anchored files reached by one run of the quick tier of the check (harness process only; forked pool workers of C13 and the extracted model are not measured)', 'properties': report},
-          open(os.path.join(ROOT, 'docs', 'coverage_quick.json'), 'w'), indent=1)
+          open(JSON, 'w'), indent=1)
 with open(os.path.join(ROOT, 'docs', 'COVERAGE.md'), 'w') as o:
     o.write('# Statements of the anchored source files reached by the quick tier of each check (/repo %s)\n\n' % head)
     o.write('Measured by `tools/coverage_run.sh` (line coverage inside the harness process). A statement no generated case reaches\ncannot disagree with its model: the list is the to-do list of the generators, not a verdict.\n\n')
@@ -70,4 +76,8 @@ with open(os.path.join(ROOT, 'docs', 'COVERAGE.md'), 'w') as o:
             else:
                 o.write('* `%s`: %d/%d; not reached: %s\n' % (f, v['reached'], v['statements'], ', '.join(v['not_reached']) or '-'))
         o.write('\n')
-print(json.dumps({p: r.get('percent', r.get('error')) for p, r in report.items()}))
+    # hand-written classification of what stays unreached (docs/COVERAGE_NOTES.md, never overwritten by this script)
+    notes = os.path.join(ROOT, 'docs', 'COVERAGE_NOTES.md')
+    if os.path.exists(notes):
+        o.write(open(notes).read())
+print(json.dumps({p: r.get('percent', r.get('error')) for p, r in report.items() if p in sys.argv[2:]}))
